@@ -14,6 +14,22 @@ P = 'sim::aux::packet'
 CH = 'sim::aux::channel'
 
 
+def nat_from_rule(run):
+    """Every packet that crosses the NAT hop - datagram or segment - has its visible source ADDRESS rewritten: the
+    rewrite of p.from is on every path of nat::incoming_packet, under no condition (shared with C08: a datagram sent
+    from behind a NAT is reported to the receiver with the NAT's external address and the sender's own port)."""
+    fx = run.fx
+    f = fx.fn1(N + '::incoming_packet')
+    run.touch(f)
+    ws = [n for n in f.all_nodes() if n['k'] == 'call' and q.render(f, n) == 'p.from.address(m_external_addr)']
+    if not ws:
+        run.violation('R5', 'from-unconditional', N + '::incoming_packet', f.loc(), 'the NAT hop no longer rewrites p.from.address(m_external_addr)')
+    for n in ws:
+        g = q.guards_at(f, n)
+        run.check(not g and q.on_all_paths(f, ws), 'R5', 'from-unconditional', N + '::incoming_packet', f.loc(n),
+                  'the source-address rewrite is conditional on %s: packets for which the condition fails (e.g. datagrams, which carry no channel) leave the NAT with the private source address' % [q.render(f, a) for a, p in g], 'unconditional')
+
+
 def check(run):
     fx = run.fx
     f = fx.fn1(N + '::incoming_packet')
@@ -46,10 +62,7 @@ def check(run):
             run.violation('R2', 'nat-effects', N + ': ' + txt, f.loc(n), 'the NAT hop performs the additional write %s: it must rewrite the visible source ADDRESS and nothing else (not the port, payload, type, sequence, hops or the true endpoints)' % txt)
     run.check(seen == {'from', 'visible'}, 'R2', 'nat-effects-complete', N + '::incoming_packet', f.loc(), 'the NAT no longer rewrites %s' % sorted({'from', 'visible'} - seen), 'both rewrites present')
     # p.from rewrite is unconditional
-    for kind, n in effects:
-        if q.render(f, n) == 'p.from.address(m_external_addr)':
-            g = q.guards_at(f, n)
-            run.check(not g, 'R5', 'from-unconditional', N + '::incoming_packet', f.loc(n), 'the source-address rewrite is conditional on %s' % [q.render(f, a) for a, p in g], 'unconditional')
+    nat_from_rule(run)
     engines.r2_writer_table(run, N + '::m_external_addr', {N + '::nat': 'fixed at construction'})
 
     run.clause('direction: visible_ep[0] is rewritten for exactly the packets the initiator sends first - guard == {p.channel, p.type == syn}')
@@ -144,4 +157,5 @@ def check(run):
     run.clause("a connection's segments cross the NAT of their own sender: the channel's two routes are composed from the right sockets' routes (shared with C09)")
     import p09 as _p09
     _p09.channel_orientation_rules(run)
+    _p09.route_algebra_rules(run)
     run.floor('R2', 4)
